@@ -732,11 +732,348 @@ theorem count_rooted_two_missing_splits (t : T) (hb : t.binary = true) (hr : t.r
         · exact oldSides_subset tt hbin hpos hu x hx)
       simpa using this
 
+/- ## the same for every tree in which each proper subtree misses a tip (`ProperOutside`): the
+   root has at least two children, or the root is itself a tip -/
+
+theorem apply_split_sets_po (t t' : T) (r : NNI) (hpo : ProperOutside t) (hpos : pposOK t = true)
+    (hu : t.tipNames.Nodup) (h : r ∈ rearrangements t) (ha : apply t r = some t') :
+    ∃ S, subAt r.path t = some S ∧
+      Spec.oneSplitApart t.usplitSet t'.usplitSet = true ∧
+      canonSide t.tipNames (lowerLeaves S.kids (lowIdx r S)) ∈ t.usplitSet ∧
+      canonSide t.tipNames (lowerLeaves S.kids (lowIdx r S)) ∉ t'.usplitSet := by
+  obtain ⟨S, hs, hne, hP⟩ := rearrangements_generic
+    (fun S r => S.kids ≠ [] ∧ ((leavesL S.kids).Nodup →
+      ∀ S', applyLocal r.path.isEmpty r S = some S' →
+        RK S S' ∧ Apart (leavesL S.kids) (lowerLeaves S.kids (lowIdx r S)) r.path.isEmpty (splitsL S.kids) (splitsL S'.kids)))
+    (by
+      intro path isRoot d1 p1 k1 j e d2 p2 u v cross site
+      have hr : (newNNI path isRoot p1 j p2 cross).path.isEmpty = isRoot := by
+        simp [newNNI, site.root]
+      rw [hr, lowIdx_newNNI path isRoot site.root]
+      refine ⟨?_, fun hnd S' hS' => ⟨local_RK d1 cross site S' hS', local_apart d1 cross site hnd S' hS'⟩⟩
+      have := site.deg
+      intro h0
+      simp only [T.kids_node] at h0
+      subst h0
+      cases isRoot <;> simp at this)
+    t hpos r h
+  have hsub := sub_leaves_sublist r.path t S hs hne
+  have hnd : (leavesL t.kids).Nodup := by
+    unfold T.tipNames at hu
+    exact (List.nodup_append.mp hu).2.1
+  obtain ⟨_, hA, hZ⟩ := apart_lift (leavesL S.kids) _ r.path.isEmpty _ r.path t t' S hs ha hnd
+    (hP (hnd.sublist hsub)) (fun x hx => hx)
+  refine ⟨S, hs, oneSplitApart_of_apart t t' (leavesL S.kids) _ r.path.isEmpty (apply_tips t t' r hpos h ha) hu hA hZ ?_⟩
+  intro hroot
+  have hq : r.path ≠ [] := by
+    intro h0
+    rw [h0] at hroot
+    simp at hroot
+  exact hpo r.path S hq hs hne
+
+theorem oldSides_nodup_po (t : T) (hpo : ProperOutside t) (hpos : pposOK t = true) (hu : t.tipNames.Nodup) :
+    (((rearrangements t).filter fun r => !r.cross).map (oldSide t)).Nodup := by
+  -- different proposals with `cross = false` sit on different branches
+  rw [List.nodup_iff_pairwise_ne, List.pairwise_map]
+  have hn : ((rearrangements t).filter fun r => !r.cross).Nodup := (rearrangements_nodup t).sublist List.filter_sublist
+  rw [List.nodup_iff_pairwise_ne] at hn
+  rw [List.pairwise_iff_forall_sublist] at hn ⊢
+  intro r₁ r₂ hsub
+  have hne := hn hsub
+  have hm₁ := List.mem_filter.mp (hsub.subset (show r₁ ∈ [r₁, r₂] by simp))
+  have hm₂ := List.mem_filter.mp (hsub.subset (show r₂ ∈ [r₁, r₂] by simp))
+  obtain ⟨S1, e1, c1, x1, hs1, hj1, hk1, hd1, hr1⟩ := rearrangement_site t r₁ hpos hm₁.1
+  obtain ⟨S2, e2, c2, x2, hs2, hj2, hk2, hd2, hr2⟩ := rearrangement_site t r₂ hpos hm₂.1
+  have hdiff : ¬(r₁.path = r₂.path ∧ lowIdx r₁ S1 = lowIdx r₂ S2) := by
+    rintro ⟨hp, hl⟩
+    apply hne
+    have hs1' := hs1
+    rw [hp, hs2] at hs1'
+    simp only [Option.some.injEq] at hs1'
+    subst hs1'
+    have hj1' := hj1
+    rw [hl, hj2] at hj1'
+    simp only [Option.some.injEq, Prod.mk.injEq] at hj1'
+    obtain ⟨_, rfl⟩ := hj1'
+    rw [hp, hl] at hr1
+    obtain ⟨p, ie, pp, j, q, hN1, hN2⟩ : ∃ p ie pp j q, r₁ = newNNI p ie pp j q x1 ∧ r₂ = newNNI p ie pp j q x2 :=
+      ⟨_, _, _, _, _, hr1, hr2⟩
+    have hc1 : x1 = false := by
+      have : r₁.cross = x1 := by rw [hN1]; rfl
+      have h := hm₁.2
+      rw [this] at h
+      simpa using h
+    have hc2 : x2 = false := by
+      have : r₂.cross = x2 := by rw [hN2]; rfl
+      have h := hm₂.2
+      rw [this] at h
+      simpa using h
+    rw [hN1, hN2, hc1, hc2]
+  have hlow := low_ne_po t hu hpo r₁.path r₂.path (lowIdx r₁ S1) (lowIdx r₂ S2) c1 c2
+    (show Low t r₁.path (lowIdx r₁ S1) c1 from ⟨S1, e1, hs1, hj1, hk1, hd1⟩).low'
+    (show Low t r₂.path (lowIdx r₂ S2) c2 from ⟨S2, e2, hs2, hj2, hk2, hd2⟩).low' hdiff
+    (by
+      intro h1 _
+      have hs := hs1
+      have hd := hd1
+      rw [h1] at hs hd
+      simp only [subAt, Option.some.injEq] at hs
+      subst hs
+      simpa using hd)
+  simp only [oldSide, hs1, hs2, lowerLeaves, hj1, hj2]
+  exact hlow
+
+theorem oldSides_subset_po (t : T) (hpo : ProperOutside t) (hpos : pposOK t = true) (hu : t.tipNames.Nodup) :
+    ∀ a ∈ ((rearrangements t).filter fun r => !r.cross).map (oldSide t), a ∈ t.usplitSet := by
+  -- each of them removes a non-trivial split of `t`
+  intro a ha
+  obtain ⟨r, hr, rfl⟩ := List.mem_map.mp ha
+  have hm := (List.mem_filter.mp hr).1
+  obtain ⟨t', hat, _⟩ := undo_apply t r hpos hm
+  obtain ⟨S, hs, _, hin, _⟩ := apply_split_sets_po t t' r hpo hpos hu hm hat
+  simp only [oldSide, hs]
+  exact hin
+
+theorem proposals_le_splits_po (t : T) (hpo : ProperOutside t) (hpos : pposOK t = true) (hu : t.tipNames.Nodup) :
+    ((rearrangements t).filter fun r => !r.cross).length ≤ t.usplitSet.length := by
+  rw [← List.length_map (f := oldSide t)]
+  exact List.Nodup.length_le_of_subset (oldSides_nodup_po t hpo hpos hu) (oldSides_subset_po t hpo hpos hu)
+
+theorem twin_one_split_po (t t₁ t₂ : T) (r : NNI) (hpo : ProperOutside t) (hpos : pposOK t = true)
+    (hu : t.tipNames.Nodup) (h : r ∈ rearrangements t) (h₁ : apply t { r with cross := false } = some t₁)
+    (h₂ : apply t { r with cross := true } = some t₂) :
+    Spec.oneSplitApart t₁.usplitSet t₂.usplitSet = true := by
+  obtain ⟨S, hs, hne, hP⟩ := rearrangements_generic
+    (fun S r => S.kids ≠ [] ∧ ((leavesL S.kids).Nodup →
+      ∀ S1 S2, applyLocal r.path.isEmpty { r with cross := false } S = some S1 →
+        applyLocal r.path.isEmpty { r with cross := true } S = some S2 →
+        RK S S1 ∧ RK S S2 ∧ ∃ cb, Apart (leavesL S.kids) cb r.path.isEmpty (splitsL S1.kids) (splitsL S2.kids)))
+    (by
+      intro path isRoot d1 p1 k1 j e d2 p2 u v cross site
+      have hr : (newNNI path isRoot p1 j p2 cross).path.isEmpty = isRoot := by
+        simp [newNNI, site.root]
+      rw [hr]
+      have hf : { newNNI path isRoot p1 j p2 cross with cross := false } = newNNI path isRoot p1 j p2 false := rfl
+      have ht : { newNNI path isRoot p1 j p2 cross with cross := true } = newNNI path isRoot p1 j p2 true := rfl
+      rw [hf, ht]
+      refine ⟨?_, fun hnd S1 S2 hS1 hS2 =>
+        ⟨local_RK d1 false site S1 hS1, local_RK d1 true site S2 hS2, local_twin_apart d1 site hnd S1 S2 hS1 hS2⟩⟩
+      have := site.deg
+      intro h0
+      simp only [T.kids_node] at h0
+      subst h0
+      cases isRoot <;> simp at this)
+    t hpos r h
+  have hsub := sub_leaves_sublist r.path t S hs hne
+  have hnd : (leavesL t.kids).Nodup := by
+    unfold T.tipNames at hu
+    exact (List.nodup_append.mp hu).2.1
+  have hloc := hP (hnd.sublist hsub)
+  -- both neighbours against the original
+  have hk1 : RK t t₁ := RK.lift _ r.path t t₁ S hs h₁ (fun S1 hS1 => by
+    cases hS2 : applyLocal r.path.isEmpty { r with cross := true } S with
+    | none =>
+      exfalso
+      have : ∀ (q : List Nat) (u : T) (S : T), subAt q u = some S → applyLocal r.path.isEmpty { r with cross := true } S = none →
+          modAt q (applyLocal r.path.isEmpty { r with cross := true }) u = none := by
+        intro q
+        induction q with
+        | nil => intro u S hs hn; simp only [subAt, Option.some.injEq] at hs; subst hs; simpa [modAt] using hn
+        | cons i q ih =>
+          intro u S hs hn
+          obtain ⟨d, pp, k⟩ := u
+          simp only [subAt] at hs
+          cases hki : k[i]? with
+          | none => simp [modAt, hki]
+          | some ec =>
+            obtain ⟨e, c⟩ := ec
+            simp only [hki] at hs
+            simp [modAt, hki, ih c S hs hn]
+      have h0 := this r.path t S hs hS2
+      rw [show modAt r.path (applyLocal r.path.isEmpty { r with cross := true }) t = apply t { r with cross := true } from rfl, h₂] at h0
+      cases h0
+    | some S2 => exact (hloc S1 S2 hS1 hS2).1)
+  have hnd1 : (leavesL t₁.kids).Nodup := hk1.leaves.nodup_iff.mpr hnd
+  obtain ⟨hl, hZ, cb, hA⟩ := apart_lift2 (leavesL S.kids) r.path.isEmpty _ _ r.path t t₁ t₂ S hs h₁ h₂ hnd1
+    (fun S1 S2 hS1 hS2 => by
+      obtain ⟨k1, k2, hA⟩ := hloc S1 S2 hS1 hS2
+      exact ⟨RL.of_RK k1 k2, fun x hx => k1.leaves.mem_iff.mpr hx, hA⟩)
+  have hall1 : t₁.tipNames.Perm t.tipNames := hk1.tipNames_perm
+  have hall : t₂.tipNames.Perm t₁.tipNames := by
+    have hn := hl.nkids
+    unfold T.tipNames
+    rw [hn]
+    by_cases h1 : t₁.kids.length = 1
+    · have hd := hl.data (by omega)
+      simp only [h1, beq_self_eq_true, if_true, T.name, hd]
+      exact List.Perm.append_left _ hl.leaves
+    · have : (t₁.kids.length == 1) = false := by simpa using h1
+      simp only [this, Bool.false_eq_true, if_false, List.nil_append]
+      exact hl.leaves
+  refine (oneSplitApart_of_apart t₁ t₂ (leavesL S.kids) cb r.path.isEmpty hall (hall1.nodup_iff.mpr hu) hA hZ ?_).1
+  intro hroot
+  have hq : r.path ≠ [] := by
+    intro h0
+    rw [h0] at hroot
+    simp at hroot
+  obtain ⟨z, hz1, hz2⟩ := hpo r.path S hq hs hne
+  exact ⟨z, hall1.mem_iff.mpr hz1, hz2⟩
+
+theorem neighbours_distinct_po (t t₁ t₂ : T) (r₁ r₂ : NNI) (hpo : ProperOutside t) (hpos : pposOK t = true)
+    (hu : t.tipNames.Nodup) (h₁ : r₁ ∈ rearrangements t) (h₂ : r₂ ∈ rearrangements t) (hne : r₁ ≠ r₂)
+    (ha₁ : apply t r₁ = some t₁) (ha₂ : apply t r₂ = some t₂) :
+    ∃ a, a ∈ t₁.usplitSet ∧ a ∉ t₂.usplitSet := by
+  obtain ⟨S1, e1, c1, x1, hs1, hj1, hk1, hd1, hr1⟩ := rearrangement_site t r₁ hpos h₁
+  obtain ⟨S2, e2, c2, x2, hs2, hj2, hk2, hd2, hr2⟩ := rearrangement_site t r₂ hpos h₂
+  by_cases hsame : r₁.path = r₂.path ∧ lowIdx r₁ S1 = lowIdx r₂ S2
+  · -- the two rearrangements of one branch
+    obtain ⟨hp, hl⟩ := hsame
+    rw [hp, hs2] at hs1
+    simp only [Option.some.injEq] at hs1
+    subst hs1
+    rw [hl, hj2] at hj1
+    simp only [Option.some.injEq, Prod.mk.injEq] at hj1
+    obtain ⟨_, rfl⟩ := hj1
+    rw [hp, hl] at hr1
+    obtain ⟨p, ie, pp, j, q, hN1, hN2⟩ : ∃ p ie pp j q, r₁ = newNNI p ie pp j q x1 ∧ r₂ = newNNI p ie pp j q x2 :=
+      ⟨_, _, _, _, _, hr1, hr2⟩
+    have hx : x1 ≠ x2 := by
+      intro hx
+      apply hne
+      rw [hN1, hN2, hx]
+    cases hx1 : x1 with
+    | false =>
+      have hx2 : x2 = true := by
+        cases h2 : x2 with
+        | true => rfl
+        | false => exact absurd (hx1.trans h2.symm) hx
+      have e1' : { r₁ with cross := false } = r₁ := by rw [hN1, hx1]; rfl
+      have e2' : { r₁ with cross := true } = r₂ := by rw [hN1, hN2, hx2]; rfl
+      have := twin_one_split_po t t₁ t₂ r₁ hpo hpos hu h₁ (by rw [e1']; exact ha₁) (by rw [e2']; exact ha₂)
+      simp only [Spec.oneSplitApart, Bool.and_eq_true, beq_iff_eq] at this
+      exact mem_of_diffCount_one this.2
+    | true =>
+      have hx2 : x2 = false := by
+        cases h2 : x2 with
+        | false => rfl
+        | true => exact absurd (hx1.trans h2.symm) hx
+      have e1' : { r₂ with cross := false } = r₂ := by rw [hN2, hx2]; rfl
+      have e2' : { r₂ with cross := true } = r₁ := by rw [hN1, hN2, hx1]; rfl
+      have := twin_one_split_po t t₂ t₁ r₂ hpo hpos hu h₂ (by rw [e1']; exact ha₂) (by rw [e2']; exact ha₁)
+      simp only [Spec.oneSplitApart, Bool.and_eq_true, beq_iff_eq] at this
+      exact mem_of_diffCount_one this.1
+  · -- two different branches: the split removed by `r₂` is still there after `r₁`
+    have hlow := low_ne_po t hu hpo r₁.path r₂.path (lowIdx r₁ S1) (lowIdx r₂ S2) c1 c2
+      (show Low t r₁.path (lowIdx r₁ S1) c1 from ⟨S1, e1, hs1, hj1, hk1, hd1⟩).low'
+      (show Low t r₂.path (lowIdx r₂ S2) c2 from ⟨S2, e2, hs2, hj2, hk2, hd2⟩).low' hsame
+      (by
+        intro h1 _
+        have hs := hs1
+        have hd := hd1
+        rw [h1] at hs hd
+        simp only [subAt, Option.some.injEq] at hs
+        subst hs
+        simpa using hd)
+    obtain ⟨S1', hs1', ho1, hin1, hout1⟩ := apply_split_sets_po t t₁ r₁ hpo hpos hu h₁ ha₁
+    obtain ⟨S2', hs2', ho2, hin2, hout2⟩ := apply_split_sets_po t t₂ r₂ hpo hpos hu h₂ ha₂
+    rw [hs1] at hs1'
+    rw [hs2] at hs2'
+    simp only [Option.some.injEq] at hs1' hs2'
+    subst hs1'
+    subst hs2'
+    have hl1 : lowerLeaves S1.kids (lowIdx r₁ S1) = leavesL c1.kids := by simp [lowerLeaves, hj1]
+    have hl2 : lowerLeaves S2.kids (lowIdx r₂ S2) = leavesL c2.kids := by simp [lowerLeaves, hj2]
+    rw [hl1] at hin1 hout1
+    rw [hl2] at hin2 hout2
+    refine ⟨canonSide t.tipNames (leavesL c2.kids), ?_, ?_⟩
+    · -- it is a split of `t` other than the one `r₁` removes
+      apply Classical.byContradiction
+      intro hnot
+      simp only [Spec.oneSplitApart, Bool.and_eq_true, beq_iff_eq] at ho1
+      exact hlow (eq_of_diffCount_one ho1.2 hin1 hout1 hin2 hnot)
+    · -- `t₂` lacks it: careful, `t₂`'s own taxa list is a permutation of `t`'s
+      exact hout2
+
+/-- ★ tip-rooted binary trees: all proposed neighbours are pairwise distinct -/
+theorem neighbours_distinct_tip_rooted (t t₁ t₂ : T) (r₁ r₂ : NNI) (hb : Spec.tipRooted t = true) (hpos : pposOK t = true)
+    (hu : t.tipNames.Nodup) (h₁ : r₁ ∈ rearrangements t) (h₂ : r₂ ∈ rearrangements t) (hne : r₁ ≠ r₂)
+    (ha₁ : apply t r₁ = some t₁) (ha₂ : apply t r₂ = some t₂) :
+    ∃ a, a ∈ t₁.usplitSet ∧ a ∉ t₂.usplitSet := by
+  have hk : t.kids.length = 1 := by
+    simp only [Spec.tipRooted, Bool.and_eq_true, beq_iff_eq] at hb
+    exact hb.1.1
+  exact neighbours_distinct_po t t₁ t₂ r₁ r₂ (properOutside_of_tipRoot t hu hk) hpos hu h₁ h₂ hne ha₁ ha₂
+
+/-- ★ tip-rooted binary trees (`(((a,b),(c,d)))e;`: the root is a tip): a neighbour differs from the
+    original by exactly one split each way -/
+theorem apply_one_split_tip_rooted (t t' : T) (r : NNI) (hb : Spec.tipRooted t = true) (hpos : pposOK t = true)
+    (hu : t.tipNames.Nodup) (h : r ∈ rearrangements t) (ha : apply t r = some t') :
+    Spec.oneSplitApart t.usplitSet t'.usplitSet = true := by
+  have hk : t.kids.length = 1 := by
+    simp only [Spec.tipRooted, Bool.and_eq_true, beq_iff_eq] at hb
+    exact hb.1.1
+  obtain ⟨_, _, h1, _⟩ := apply_split_sets_po t t' r (properOutside_of_tipRoot t hu hk) hpos hu h ha
+  exact h1
+
 /-- the rooted quartet `((a,b),(c,d))` -/
 def witnessRooted : T :=
   .node ⟨"", []⟩ 0
     [(EdgeD.blank, .node ⟨"", []⟩ 0 [(EdgeD.blank, T.leaf "a"), (EdgeD.blank, T.leaf "b")]),
      (EdgeD.blank, .node ⟨"", []⟩ 0 [(EdgeD.blank, T.leaf "c"), (EdgeD.blank, T.leaf "d")])]
+
+/-- tip-rooted binary trees: the branch between the root (a tip) and its child gets no
+    rearrangement, every other branch whose lower end is not a tip gets two -/
+theorem count_tip_rooted (t : T) (hb : Spec.tipRooted t = true) :
+    (rearrangements t).length + 2 = 2 * t.internalEdges.length := by
+  obtain ⟨d, p, k⟩ := t
+  simp only [Spec.tipRooted, Bool.and_eq_true, beq_iff_eq, T.kids_node] at hb
+  obtain ⟨⟨hk, hbin⟩, hall⟩ := hb
+  match k, hk, hbin, hall with
+  | [(e, c)], _, hbin, hall =>
+    have hc2 : c.kids.length = 2 := by simpa using hall
+    have hcl : c.isLeaf = false := by
+      obtain ⟨dc, pc, kc⟩ := c
+      simp only [T.kids_node] at hc2
+      cases kc with
+      | nil => simp at hc2
+      | cons _ _ => simp [T.isLeaf]
+    rw [internalEdges_length, rearrangements, enumT]
+    have := enumL_length_nopar true [] p [(e, c)] 0 hbin (fun et _ pre' hbe => enumT_length_below et.2 pre' hbe)
+    simp only [if_true, T.kids_node, List.length_cons, List.length_nil]
+    simp only [List.filter_cons, hcl, Bool.not_false, if_true, List.filter_nil, List.length_cons, List.length_nil] at this
+    exact this
+
+/-- ★ … and in the Spec's own terms: exactly two rearrangements per non-trivial split — here the
+    root branch of the quartet `(((a,b),(c,d)))e;` does get its two (compare F22). -/
+theorem count_tip_rooted_splits (t : T) (hb : Spec.tipRooted t = true) (hpos : pposOK t = true) (hu : t.tipNames.Nodup) :
+    (rearrangements t).length = 2 * Spec.innerBranches t := by
+  have hc := count_tip_rooted t hb
+  have hb' := hb
+  simp only [Spec.tipRooted, Bool.and_eq_true, beq_iff_eq] at hb'
+  obtain ⟨⟨hk, _⟩, hall⟩ := hb'
+  have hhalf : 2 * ((rearrangements t).filter fun r => !r.cross).length = (rearrangements t).length :=
+    enumT_filter_cross t true []
+  have hlow := proposals_le_splits_po t (properOutside_of_tipRoot t hu hk) hpos hu
+  have hin : t.kids.all (fun et => !et.2.isLeaf) = true := by
+    rw [List.all_eq_true] at hall ⊢
+    intro et het
+    have := hall et het
+    simp only [beq_iff_eq] at this
+    have hne : et.2.kids ≠ [] := by
+      intro h0
+      rw [h0] at this
+      simp at this
+    simp [T.isLeaf, hne]
+  have hup := usplitSet_length_lt_tip_rooted t hu hk hin
+  simp only [Spec.innerBranches]
+  omega
+
+/-- the tip-rooted tree `(((a,b),(c,d)))e`: five tips, two inner branches, four rearrangements -/
+def witnessTipRooted : T :=
+  .node ⟨"e", []⟩ 0 [(EdgeD.blank, witnessRooted)]
+
+example : Spec.tipRooted witnessTipRooted = true ∧ pposOK witnessTipRooted = true ∧ witnessTipRooted.tipNames.Nodup ∧
+    (rearrangements witnessTipRooted).length = 4 := by decide
 
 /-- Negative theorem (F22): on the rooted quartet, which has one inner branch `ab|cd`, the
     model of `Rearrange` — tied to the code on every run — proposes nothing. -/
